@@ -557,8 +557,9 @@ def searches(tier: str):
     """(harness, depth, deviation bound). Quick is the same space with smaller bounds / menus."""
     if tier == "quick":
         return [
-            (Harness(("p", "pt"), statuses=("502", "404"), inject=("ev",), label="delivery "), 4, 3),
-            (Harness(("t", "eac", "tf", "tf0"), statuses=(), undef=False, inject=(), teardown=False, label="regions "), 3, 2),
+            (Harness(("p", "t", "pt"), label="delivery "), 4, 3),
+            (Harness(("t", "eac", "es", "tf", "cr", "tf0", "eac+es", "tf+tf"), statuses=(), undef=False, inject=(), teardown=False,
+                     label="regions "), 3, 2),
         ]
     return [
         (Harness(("p", "t", "pt"), label="delivery "), 6, 3),
